@@ -56,6 +56,7 @@ MANIFEST = {
 
 U1 = "00000000-0000-4000-8000-0000000000c4"
 REG_TOPLEVEL = "extension-definition--7c3b9e4f-5d6f-4a81-8cbd-2e3f4a5b6c7d"
+REG_TOPLEVEL2 = "extension-definition--8d4caf50-6e70-4b92-9dce-3f4a5b6c7d8e"
 
 
 # ------------------------------------------------------------------ walking an object along the frozen tables
@@ -254,6 +255,40 @@ def injections(gen, cid, o):
                     "undeclared property next to a registered toplevel-property-extension at %s" % ps, True, nc)
                 mut(lambda x: tlreg(x, None, False),
                     "property of a registered toplevel-property-extension without the extension at %s" % ps, True, nc)
+                # custom content INSIDE the value of a property the registered extension declares
+                def tlinner(x, which):
+                    tlreg(x)
+                    if which == "ref":
+                        at(x, path)["t_ref"] = {"source_name": "s", "url": "https://example.com/x", "x_inner": 1}
+                    elif which == "ref-clean":
+                        at(x, path)["t_ref"] = {"source_name": "s", "url": "https://example.com/x"}
+                    else:
+                        at(x, path)["t_hashes"] = {"SHA-256": "aec070645fe53ee3b3763059376134f058cc337247c978add178b6ccdfb0019f",
+                                                   "x_custom_hash": "abcd"}
+                mut(lambda x: tlinner(x, "ref"),
+                    "custom property inside the embedded object of a registered toplevel-property-extension property at %s" % ps, True, nc)
+                mut(lambda x: tlinner(x, "hashes"),
+                    "custom hash name inside a registered toplevel-property-extension property at %s" % ps, True, nc)
+                mut(lambda x: tlinner(x, "ref-clean"),
+                    "registered toplevel-property-extension property holding an ordinary embedded object at %s" % ps, False, nc)
+                # two registered extensions: an object with both is built first, then one with only the first that
+                # carries the second's property (custom: nothing declares it there)
+                def both(x):
+                    tlreg(x)
+                    add(x, REG_TOPLEVEL2, {"extension_type": "toplevel-property-extension"})
+                    at(x, path)["u_rank"] = 7
+                def orphan(x):
+                    tlreg(x)
+                    at(x, path)["u_rank"] = 7
+                xb = copy.deepcopy(o)
+                try:
+                    both(xb)
+                    bef = {"nocorr": True, "always": True, "before": [{"route": "parse", "cid": cid, "data": xb}]}
+                    mut(lambda x: both(x), "two registered toplevel-property-extensions with their declared properties at %s" % ps, False, nc)
+                    mut(orphan, "property of a second registered toplevel-property-extension that the object does not carry at %s" % ps,
+                        True, bef)
+                except (KeyError, IndexError, TypeError):
+                    pass
             if ex["ver"] == "2.1" and r.random() < 0.3 and kind == "extensions-absent":
                 def tl(x):
                     add(x, "extension-definition--" + U1, {"extension_type": "toplevel-property-extension"})
